@@ -17,7 +17,8 @@ EXPLANATION = (
     "hash multiplier/shift of both hash variants, the roll-hash switch threshold, tree-size constants, and all static "
     "trees/code tables equal the values parsed from zlib-ng's deflate.c, deflate.h, zutil.h, trees_tbl.h, "
     "insert_string*.c, match_tpl.h (frozen extract with file hashes). Equal parameters are necessary, far from "
-    "sufficient, for byte identity: match selection and block splitting are algorithmic and not decided.")
+    "sufficient, for byte identity: match selection and block splitting are algorithmic and not decided. "
+    "SIB/ref-writes: write-set parity of the compressor core with zlib-ng's functions (see C01).")
 
 CLAIM = dict(
     text="Static cross-language constant comparison: every tuning parameter and static table the compressed bytes depend "
@@ -119,6 +120,8 @@ def run(ck):
                 ok = True
         ck.decide(ok, R, "lit_bufsize", "1 << (mem_level + 6)", "lit_bufsize is not 1 << (memLevel + 6)", where(ini))
     heuristics(ck, P, ref)
+    from .. import refwrites
+    ck.floor("SIB/ref-writes", refwrites.check(ck, P, "SIB/ref-writes", only={"deflate.c:fill_window", "deflate.c:lm_init", "deflate.c:lm_set_level", "deflate_fast.c:deflate_fast", "deflate_slow.c:deflate_slow", "deflate_medium.c:deflate_medium", "deflate_quick.c:deflate_quick", "deflate_rle.c:deflate_rle", "deflate_huff.c:deflate_huff", "deflate_stored.c:deflate_stored"}), 40)
     ck.extra["values_compared"] = n
     ck.extra["exhaustive"] = True
     ck.extra["reference_files"] = ref["files"]
